@@ -657,15 +657,23 @@ def _digits_only(prog, f, b, t):
         return None
     # D. the prefix handed back by a splitting helper at an offset that is a count of leading ASCII digits:
     #    `self.advance_by(self.string.chars().take_while(char::is_ascii_digit).count())`
-    r0 = prim.expand_single_def_vars(f, recv).strip()
+    r0 = prim.renorm(prim.expand_single_def_vars(f, recv)).strip()
     while r0.k == "call" and r0.a["name"] in ("unwrap", "expect", "unwrap_or_default") and r0.kids:
         r0 = r0.kids[0].strip()
+    for _ in range(3):
+        # the success payload of the helper's result, taken with `?` or a match
+        if r0.k == "field" and str(r0.a) == "0" and r0.kids and r0.kids[0].strip().k == "variant":
+            r0 = r0.kids[0].strip()
+        if r0.k == "variant" and str(r0.a) in ("Ok", "Some", "Continue") and r0.kids:
+            r0 = r0.kids[0].strip()
+            continue
+        break
     if r0.k == "variant" and r0.kids:
         r0 = r0.kids[0].strip()
     if r0.k == "call" and r0.a["callee"].startswith("findutils::") and len(r0.kids) == 2:
         from .. import audit as _audit
         counted = _audit._ascii_prefix_count(prog, f, r0.kids[1])
-        digit_pred = "is_ascii_digit" in prim.expand_single_def_vars(f, r0.kids[1]).fmt()
+        digit_pred = _audit._ascii_prefix_pred(prog, f, r0.kids[1]) == "is_ascii_digit"
         hf = prog.fns.get(r0.a["callee"]) or prog.fns.get(r0.a["callee"].split("::<")[0])
         if counted is not None and digit_pred and hf is not None:
             oks = [a.strip() for a in prim.flatten_phi(prim.origin_of_local(hf, 0)) if a.strip().k == "agg" and str(a.strip().a).endswith(("Result::Ok", "Option::Some"))]
